@@ -112,6 +112,13 @@ def sameEffective (keys : List Nat) (a b : List Subs) : Bool :=
 def conflicting (keys : List Nat) (ms : List Subs) : Bool :=
   keys.any fun g => ((ms.filterMap fun m => subsGet m g).eraseDups).length > 1
 
+/-! ### compact one-line printers for `detail` -/
+def showRat (r : Rat) : String := if r.den == 1 then toString r.num else s!"{r.num}/{r.den}"
+def showPoint (p : Point) : String := "[" ++ ",".intercalate (p.map showRat) ++ "]"
+def showSubs (m : Subs) : String := "{" ++ ",".intercalate (m.map fun (a, b) => s!"{a}>{b}") ++ "}"
+def showMaps (ms : List Subs) : String := "[" ++ ",".intercalate (ms.map showSubs) ++ "]"
+def showOpt (o : Option (List Subs)) : String := match o with | none => "nomatch" | some ms => showMaps ms
+
 def handle : Handler := fun s =>
   let r : Option Verdict := do
     let n ← (← s.field1? "naxes").asNat?
@@ -169,8 +176,8 @@ def handle : Handler := fun s =>
         match bad with
         | [] => if corr then "" else "model-vs-impl"
         | p :: _ =>
-          if conflicting keys (spec p) then "precedence"
-          else if emptyRegion then "empty-region"
+          if emptyRegion then "empty-region"
+          else if conflicting keys (spec p) then "precedence"
           else if natOk p && decide (nMerged ≥ 65) && wordsDiffer then
             -- the Python-int algorithm is right here, the word-vector emulation is not
             (if got wOut p == got iOut p then
@@ -187,10 +194,10 @@ def handle : Handler := fun s =>
         (if iOut.length ≥ 100 then ["out100+"] else [])
       let detail :=
         (match corrBad with
-         | some p => s!"corr-point={repr p} model={repr (firstMatch wOut p)} impl={repr (firstMatch iOut p)} "
+         | some p => s!"corr-point={showPoint p} model={showOpt (firstMatch wOut p)} impl={showOpt (firstMatch iOut p)} "
          | none => "") ++
         (match bad with
-         | p :: _ => s!"oracle-point={repr p} impl={repr (got iOut p)} spec={repr (spec p)} nbad={bad.length}/{checked.length}"
+         | p :: _ => s!"oracle-point={showPoint p} impl={showMaps (got iOut p)} spec={showMaps (spec p)} nbad={bad.length}/{checked.length}"
          | [] => "")
       some { corr := some corr, oracle := some oracle, nontrivial := nt, cls := cls, tags := tags, detail := detail }
   r.getD (badInput "c16: cannot parse case")
